@@ -212,12 +212,15 @@ class ArrV(Value):
             if isinstance(self.shape, tuple):
                 return B._prod(interp, self.shape)
             raise Unsupported('size of an array of opaque shape')
-        if name == 'ravel':
+        if name in ('ravel', 'flatten'):
             return PyFunc(lambda interp: ArrV(self.term, ('ravel', self.py_getattr(interp, 'shape')), self.dtype,
                                               None, {'ravel_of': self}), 'Array.ravel')
         if name == 'reshape':
             def reshape(interp, *a):
                 new = a[0] if len(a) == 1 and not B.is_intlike(a[0]) else tuple(a)
+                if isinstance(new, (tuple, list)) and len(new) == 1 and concrete(new[0]) == -1:
+                    # x.reshape(-1) / x.reshape((-1,)) is x.ravel(): the row-major flattening
+                    return ArrV(self.term, ('ravel', self.py_getattr(interp, 'shape')), self.dtype, None, {'ravel_of': self})
                 return ArrV(self.term, new, self.dtype, squeezed_axes(self.shape, self.axes, new), {'reshape_of': self})
             return PyFunc(reshape, 'Array.reshape')
         if name == 'astype':
@@ -719,6 +722,25 @@ def install(T: Theory):
         T.externals[f'{mod}.minimum'] = elementwise(lambda a, b: z3.If(a <= b, a, b), 'minimum')
         T.externals[f'{mod}.maximum'] = elementwise(lambda a, b: z3.If(a >= b, a, b), 'maximum')
         T.externals[f'{mod}.abs'] = elementwise(lambda a: z3.If(a >= 0, a, -a), 'abs')
+
+    # functional spellings of the arithmetic operators (a refactoring x**2 -> jnp.square(x), z / r -> jnp.divide(z, r) ...
+    # must not leave the subset); `out=` (in-place ufunc call) is not modelled
+    def functional(fn, name):
+        h = elementwise(fn, name)
+
+        def call(interp, *xs, **kw):
+            if kw:
+                raise Unsupported(f'{name} with keyword arguments {sorted(kw)} (in-place / where forms are not modelled)')
+            return h(interp, *xs)
+        return call
+    for mod in ('jax.numpy', 'numpy'):
+        T.externals[f'{mod}.square'] = functional(lambda a: a * a, 'square')
+        T.externals[f'{mod}.negative'] = functional(lambda a: -a, 'negative')
+        T.externals[f'{mod}.add'] = functional(lambda a, b: a + b, 'add')
+        T.externals[f'{mod}.subtract'] = functional(lambda a, b: a - b, 'subtract')
+        T.externals[f'{mod}.multiply'] = functional(lambda a, b: a * b, 'multiply')
+        T.externals[f'{mod}.divide'] = functional(lambda a, b: a / b, 'divide')
+        T.externals[f'{mod}.true_divide'] = functional(lambda a, b: a / b, 'true_divide')
 
     def clip(interp, x, min=None, max=None, **kw):      # noqa: A002
         lo = kw.get('a_min', min)
